@@ -208,8 +208,11 @@ func (hc *HashChain) Fill(argb []uint32, quality int, xsize, ysize int, lowEffor
 	}
 
 	// Decide between parallel and serial second pass.
+	// The two passes are different algorithms (interleaved vs. deferred
+	// left-extension) and give different matches, so the choice must not
+	// depend on the CPU count: only the number of workers does.
 	numWorkers := runtime.GOMAXPROCS(0)
-	if numWorkers > 1 && size > 50000 && !lowEffort {
+	if size > 50000 && !lowEffort {
 		hc.fillParallel(argb, xsize, size, iterMax, winSize, numWorkers)
 	} else {
 		hc.fillSerial(argb, xsize, size, iterMax, lowEffort, winSize)
